@@ -72,7 +72,8 @@ func (r *rwRT) ruleMutGuard() {
 	for _, cb := range callbacks {
 		fn := r.w.MethodOpt(pathRw, cb.typ, cb.name)
 		if fn == nil {
-			c.und("RW.MUTGUARD", cb.typ+"."+cb.name, "", "file-level callback not found")
+			// the pass may have been restructured; its mutator sites are still enumerated below
+			c.Notes = append(c.Notes, "file-level callback "+cb.typ+"."+cb.name+" not found")
 			continue
 		}
 		c.fn(relName(fn))
